@@ -38,7 +38,7 @@ STATS = {'determined': 0, 'consistent': 0}
 def agree(c, res, exp, what):
     """list of mismatch descriptions.  For every element: either the contract DETERMINES the numpy value (proved), or - where the
     solver cannot complete the quantifier reasoning - the numpy value must at least be CONSISTENT with the contract
-    (contract /\ result == numpy value is not refuted).  A contract that contradicts numpy fails here."""
+    (contract and result == numpy value is not refuted).  A contract that contradicts numpy fails here."""
     bad = []
     exp = np.asarray(exp)
     s = z3.Solver()
@@ -182,6 +182,59 @@ def _cases():
         ref[:, :, None][1:, 0, 0] = 4.0
         return base, ref
     C.append(('write-through-basic-view', viewwrite))
+
+    # -- contracts added for kdt_match's greedy loop (C17)
+    for nm, arr in (('unique-min', np.array([3.0, -1.5, 2.0, 7.25])), ('tie', np.array([2.0, 1.0, 1.0, 5.0])), ('single', np.array([4.0]))):
+        C.append(('argmin-' + nm, lambda c, arr=arr: (npshim.argmin(sym(c, arr)), np.argmin(arr))))
+    bm = np.array([[False, False, False], [True, False, True], [False, True, False]])
+    C.append(('rowcount', lambda c: (npshim._rowcount(sym(c, bm)), bm.sum(axis=1))))
+    C.append(('int-array-ne-inf', lambda c: (sym(c, i5) != np.inf, i5 != np.inf)))
+    C.append(('int-array-eq-inf', lambda c: (sym(c, i5) == np.inf, i5 == np.inf)))
+    C.append(('gather-with-all-true-mask', lambda c: (sym(c, i5)[sym(c, i5) != np.inf], i5[i5 != np.inf])))
+
+    def unwrap_case(c, arr):
+        for ax in npshim.pi_axioms():
+            c.assume(ax)
+        return npshim.unwrap(sym(c, arr)), np.unwrap(arr)
+    # (one wrapped element per case: the exact comparison fixes pi from it; two of them give two slightly different floating-point pi's)
+    for nm, arr in (('small-steps', np.array([0.3, 0.7, 1.1, 2.9, 3.5])), ('step-up', np.array([0.3, 0.7, 5.3])), ('step-down', np.array([6.0, 5.5, 0.4]))):
+        C.append(('unwrap-' + nm, lambda c, arr=arr: unwrap_case(c, arr)))
+
+    def hstack_var(c):
+        pieces = [np.array([4, 7]), np.array([], dtype=int), np.array([1, 1, 9])]
+        LEN = z3.Function('lc_len', I, I)
+        P = z3.Function('lc_piece', I, I, I)
+        for j, pc in enumerate(pieces):
+            c.assume(LEN(j) == len(pc))
+            for q, v in enumerate(pc):
+                c.assume(P(j, q) == int(v))
+        sl = core.SymList(3, lambda j: SArr((LEN(lift(j)),), (lambda je: lambda q: P(je, q))(lift(j)), 'i'))
+        return npshim._hstack_var(sl, 'i'), np.hstack(pieces)
+    C.append(('hstack-of-variable-length-pieces', hstack_var))
+
+    def scatter(c):
+        out = sym(c, np.zeros(5))
+        out[[3, 1, 3]] = sym(c, np.array([1.0, 2.0, 3.0]))
+        ref = np.zeros(5)
+        ref[[3, 1, 3]] = np.array([1.0, 2.0, 3.0])
+        return out, ref
+    C.append(('scatter-store-with-repeats', scatter))
+
+    # -- numpy computes a derived array when the statement runs: later in-place updates of an operand do not reach it; a view sees them
+    def derived_then_store(c):
+        x = sym(c, a5.copy())
+        y = x[1:] * 2
+        m = x > 2.5
+        z = x[1:].copy()
+        v = x[1:]
+        x[2] = 100.0
+        x *= 2
+        r = a5.copy()
+        ry, rm, rz, rv = r[1:] * 2, r > 2.5, r[1:].copy(), r[1:]
+        r[2] = 100.0
+        r *= 2
+        return [(y, ry), (m, rm), (z, rz), (v, rv), (x, r)]
+    C.append(('derived-array-is-computed-when-the-statement-runs', derived_then_store))
 
     def interval(c):
         t = npshim.arange(-3, 9)
